@@ -15,7 +15,7 @@ func init() {
 		LevelText:   "Structural clauses decided for all paths: a message is dropped only when it has a key, is not the latest offset for that key and is below the high watermark; the newest segment is never rewritten; the bytes written to the cleaned segment are the scanned message set, untouched; the per-key maximum only grows; readers re-initialise on a replaced segment; the segment list and the epoch cache are swapped in one critical section; index slots are never derived from offsets (the reverse-scanner rule). That the survivor set equals the specification for every key pattern and layout is not decided.",
 		LevelNote:   "Trusted: go/ssa; sync.Map semantics; nil-versus-empty key conflation in scanKeys is noted, not armed.",
 		DesignRef:   "DESIGN.md §4 C08",
-		Explanation: "R01.8 (shared) findLastEntryIndex answers -1, not an error. R08.1 also: the key scan is handed every segment; worker count and cleaner interval default for every non-positive value (F97, F102); R08.9 replaced segments are published to the log's list as they are replaced (known finding K17). R08.1 also: only messages with a key enter the compactor's key table (F91). R08.6 also covers reverse scans into segments deleted by retention (F76); R01.6 (shared) search predicates; R05.8 (shared) index rebuild accepts gaps. R08.1 retention predicate and scan loops that end normally only at io.EOF, R08.2 newest segment untouched, R08.3 byte identity, R08.4 key table monotone / worker exit, R01.5 (shared) unit discipline, R08.6 readers re-initialise, R08.7 atomic swap in Clean, shared R01.8 (log shapes), R01.9 (reader provenance), R01.10 (scanner entries not retained), R09.7 (segments rolled during a clean re-attached), R16.8 (compaction settings plumbing). R15.8 (shared) streams.compact.* reach their Config fields. NOT decided: survivor set for every key pattern and layout.",
+		Explanation: "R08.1 also (round 8): every keyed message is kept or dropped after a lookup of its own key. R01.8 (shared) findLastEntryIndex answers -1, not an error. R08.1 also: the key scan is handed every segment; worker count and cleaner interval default for every non-positive value (F97, F102); R08.9 replaced segments are published to the log's list as they are replaced (known finding K17). R08.1 also: only messages with a key enter the compactor's key table (F91). R08.6 also covers reverse scans into segments deleted by retention (F76); R01.6 (shared) search predicates; R05.8 (shared) index rebuild accepts gaps. R08.1 retention predicate and scan loops that end normally only at io.EOF, R08.2 newest segment untouched, R08.3 byte identity, R08.4 key table monotone / worker exit, R01.5 (shared) unit discipline, R08.6 readers re-initialise, R08.7 atomic swap in Clean, shared R01.8 (log shapes), R01.9 (reader provenance), R01.10 (scanner entries not retained), R09.7 (segments rolled during a clean re-attached), R16.8 (compaction settings plumbing). R15.8 (shared) streams.compact.* reach their Config fields. NOT decided: survivor set for every key pattern and layout.",
 	})
 }
 
